@@ -21,6 +21,22 @@ CHECKS = {
    technique="exhaustive caller-program enumeration (depth-bounded) x deviation-bounded scripted inner stream (short, Interrupted, error, park-until-gate) on the real SyncStream / AsyncReadStream / AsyncWriteStream, reference-FIFO and wake-obligation oracle",
    text="Every caller program up to depth 4 (quick) / 5 (thorough) over the adapters' entry points is run on the real code for base capacities {1,2,4} and limits {2,4,8}, with every placement of <= 1-3 inner-stream deviations; oracle: bytes produced by the inner reader == bytes delivered + into_parts() remainder, bytes accepted by write == bytes received by the inner writer after a (retried) flush/close, would-block exactly when the reference model needs servicing, limits honoured, Pending only when the inner stream is parked, and every entry point that returned Pending has its latest (fresh per poll) waker woken when the gate opens.",
    note="Trusted: scripted inner streams and the gate (c12.rs, env.rs). The thorough tier caps each scenario at 3e6 executions and says so (exhaustive=false with caps listed). Known finding: read-side limit overshoot below base_capacity."),
+ "C03": dict(engine="e3loom", design="§2/C03",
+   technique="loom: exhaustive interleaving exploration (preemption-bounded, C11 memory model) of the real compio-executor cross-thread wake path against a parked runtime loop",
+   text="Layer (a) of DESIGN §2/C03: the real compio-executor (its own cfg(loom) switch) is explored by loom in closed scenarios: 1-2 waking threads (wake / wake_by_ref) x cross-thread queue sizes 1-2 x re-arm-and-wake-again x two tasks with a full queue, while the runtime thread runs block_on's tick/park loop on a correct event count standing for the driver. A lost wake-up is a loom deadlock (runtime parked forever). Preemption bound 2 (quick) / 3 (thorough). Layers (b) driver flag protocol and (c) real drivers are listed in DESIGN and not yet part of this check.",
+   note="Trusted: loom's memory model; crossbeam ArrayQueue treated as linearizable (stays on std atomics under cfg(loom)); the parked-runtime stand-in (20 lines). Does not yet cover the driver's own idle/notified flag protocol nor the external-event-loop mode."),
+ "C04": dict(engine="e3loom", design="§2/C04",
+   technique="loom: exhaustive interleaving exploration (preemption-bounded) of the real compio-executor join-handle / waker / executor-drop paths across threads, with drop-counting and loom-cell-tracked futures",
+   text="Layer (b) of DESIGN §2/C04: handle awaited (parking and busy-polling), dropped or cancelled on another thread while the home thread runs the task; task waker used on another thread while the executor is dropped; output taken remotely while the executor is dropped. Oracle: output reaches the remote handle exactly once, future dropped exactly once and never polled after finishing, every poll/drop of the future ordered on the home thread (loom UnsafeCell tracking), no deadlock. The single-threaded program enumeration (layer a) is not yet part of this check.",
+   note="Trusted: loom. A leaked clone of the join handle's waker (observed, outside the property's statement) is reported as an outcome class, not a violation."),
+ "C06": dict(engine="e3loom", design="§2/C06",
+   technique="loom: exhaustive interleaving exploration of the real compio-driver/src/fd.rs (include!d, synchrony re-bound to loom Arc/AtomicBool/AtomicWaker)",
+   text="Layer (b) of DESIGN §2/C06 (handles shareable across threads, feature sync): closer awaiting take() vs 1-2 holders dropping on other threads, clone-then-drop, two concurrent closers, try_unwrap vs drop, droppers only. Oracle: the closer resolves (no deadlock), exactly one closer obtains the descriptor, the descriptor is dropped exactly once and never while a holder still uses it (loom cell tracking). Layer (a), single-threaded close protocol and descriptor-leak accounting on the real runtime, is not yet part of this check.",
+   note="Trusted: loom; shim_synchrony (Shared = loom Arc, WakerSlot = loom AtomicWaker). Known findings: closer can sleep forever (two entries)."),
+ "C17": dict(engine="e3loom", design="§2/C17",
+   technique="loom: exhaustive interleaving exploration of the real compio-driver/src/asyncify.rs (include!d; flume re-bound to a loom rendezvous channel, std::thread to loom)",
+   text="Layer (a) of DESIGN §2/C17: 1-3 dispatcher threads (several runtimes sharing a pool) x thread_limit 1-2 with the drivers' retry loop, and worker retirement after the idle timeout followed by a late job. Oracle: every job body runs exactly once, a handed-back job is the same job, jobs running at once <= thread_limit at every point, a job after retirement still runs, no deadlock.",
+   note="Trusted: loom; shim_flume (rendezvous channel, idle timeout fired by an explicit scenario step). Scenarios with 4 threads run with preemption bound 1 (quick) / 2 (thorough)."),
 }
 
 NOT_YET = {
@@ -67,6 +83,7 @@ def main():
             "add_only": True,
         },
         "engines": [
+            {"name": "e3loom", "path": "/verif/e3loom", "serves_properties": ["C03", "C04", "C06", "C17"], "kind_free_text": "loom (bounded-preemption exhaustive interleaving exploration) over the repository's own source: compio-executor via its cfg(loom), fd.rs and asyncify.rs via include! with std/flume/synchrony re-bound to loom-backed shims; each scenario in a sub-process"},
             {"name": "e2pure", "path": "/verif/e2pure", "serves_properties": ["C10", "C11", "C12", "C13"], "kind_free_text": "input-exhaustive / deviation-bounded explorer driving real compio-buf and compio-io code (stateless DFS with prefix replay, vcore::explore)"},
         ],
         "checks": checks,
